@@ -2830,7 +2830,7 @@ ADF Read Block Data:
 Read a continuous block of data from a Node.  Reads a block the node's data
 and returns it into a contiguous memory space.
 
-ADF_Read_Block_Data( ID, data, error_return )
+ADF_Read_Block_Data( ID, b_start, b_end, m_data_type, data, error_return )
 input:  const double ID		The ID of the node to use.
 input:  const long b_start	The starting point in block in token space
 input:  const long b_end 	The ending point in block in token space
@@ -2841,6 +2841,7 @@ void	ADF_Read_Block_Data(
 		const double ID,
 		const cgsize_t b_start,
 		const cgsize_t b_end,
+		const char *m_data_type,
 		char *data,
 		int *error_return )
 {
@@ -2870,6 +2871,18 @@ if( data == NULL ) {
 
 ADFI_chase_link( ID, &LID, &file_index,  &block_offset, &node, error_return ) ;
 CHECK_ADF_ABORT( *error_return ) ;
+
+/* if it was provided, check to make sure the data types match (as
+   ADF_Read_All_Data and ADF_Read_Data do: the whole 32-character type of the
+   node is known here only, ADF_Get_Data_Type reports two characters) */
+if( m_data_type != NULL ) {
+  if(strncmp(m_data_type, node.data_type, 2) != 0 ||
+     (m_data_type[2] == '\0' &&
+      node.data_type[2] != ' ' && node.data_type[2] != '\0')){
+    *error_return = INVALID_DATA_TYPE;
+    CHECK_ADF_ABORT( *error_return );
+  }
+}
 
 	/** Get datatype size **/
 ADFI_evaluate_datatype( file_index, node.data_type, &file_bytes, &memory_bytes,
